@@ -1,4 +1,5 @@
 import TTProofs.Lemmas.C09_Master
+import TTProofs.Lemmas.C09_TreeLineages
 /-!
 # C09 (companion) — the modelled closed forms ARE the solutions of the birth–death master equations
 
@@ -17,12 +18,16 @@ hence in the code's forward time `p'(t) = −(μ − (λ+μ+ψ) p + λ p²)` and
 * (2) `master_solution_unique_p`, `master_solution_unique_q` (Grönwall, `ODE_solution_unique_of_mem_Icc_right`): ANY
   continuous solution with the same boundary value is the closed form on the epoch; `master_p_all_epochs`: by induction
   over the epochs, a family of exact solutions glued by the code's boundary condition reproduces every `p[k]`.
-* assembly: `master_density_eq_model_partial` — the log density assembled EVENT BY EVENT from exact solutions
+* assembly: `master_event_density_eq_model` — the log density assembled EVENT BY EVENT from exact solutions
   (`masterEpochTerm`: which factor each entering lineage, birth, ψ-sampling, unsampled crossing, ρ-sampling and the
-  survival term contribute) equals the modelled `logProb`.  `branch_product_eq_event_product` turns the per-branch
-  product ALONG A TREE into that per-event product inside one epoch.  MISSING (hence `_partial`): the same per-branch ⇒
-  per-event regrouping for branches that cross epoch boundaries, and the derivation of the master equations themselves
-  from the birth–death process (they are the specification here, as in the property text).
+  survival term contribute) equals the modelled `logProb`; and **`master_tree_density_eq_model`** — the log density
+  assembled BRANCH BY BRANCH ALONG THE TREE (`branchLog`: every branch carries the solution of the linear master
+  equation integrated along it, with a factor `1 − ρ` at each boundary it crosses unsampled; every birth its rate `λ`,
+  every tip its sampling rate `ψ` or `ρ`; plus the survival term) equals the modelled `logProb`, for every binary tree
+  and any number of epochs (`crossing_double_count`: the terms `n_j` of the code count, lineage by lineage, the
+  boundaries each branch crosses).  `branch_product_eq_event_product` is the multiplicative one-epoch version.
+  NOT derived here: the master equations themselves from the birth–death process (they are the specification, as in
+  the property text).
 * the RK4 integrator of `harness/c09_oracle.py` integrates exactly these equations, with these boundary conditions, along
   the tree and is compared with the implementation on every run: it ties this specification to the code.
 -/
@@ -140,11 +145,10 @@ theorem branch_product_eq_event_product (q : ℝ → ℝ) (lam psi : ℝ) (hq : 
       have := hq x
       field_simp
 
-/-- **master_density_eq_model_partial**: the log density assembled event by event from EXACT solutions of the master
+/-- **master_event_density_eq_model**: the log density assembled event by event from EXACT solutions of the master
 equations (`pt` for `p`, `gt` for the branch factors, one per epoch, glued as the code glues them) is the modelled
-`PiecewiseConstantBirthDeath` log density.  Partial: see the header (branches crossing epoch boundaries are taken in
-their per-event form). -/
-theorem master_density_eq_model_partial (r : Rates ℝ) (t : Nat → ℝ) (m' : Nat) (g : Grid t (m' + 1))
+`PiecewiseConstantBirthDeath` log density. -/
+theorem master_event_density_eq_model (r : Rates ℝ) (t : Nat → ℝ) (m' : Nat) (g : Grid t (m' + 1))
     (hr : Admissible r (m' + 1)) (t0 : t 0 = 0) (pt gt : Nat → ℝ → ℝ) (hp : MasterP r t (m' + 1) pt)
     (hg : MasterG r t (m' + 1) pt gt) (surv : Bool) (tips ints : List ℝ)
     (hints : ∀ a ∈ ints, 0 < a ∧ a ≤ t (m' + 1)) (htips : ∀ a ∈ tips, 0 ≤ a ∧ a < t (m' + 1)) :
@@ -173,6 +177,66 @@ theorem master_density_eq_model_partial (r : Rates ℝ) (t : Nat → ℝ) (m' : 
   intro k hk
   exact masterEpochTerm_eq r t (m' + 1) g hr pt gt hp hg _ _ hev k (Finset.mem_range.mp hk)
 
+/-- log density of a tree assembled BRANCH BY BRANCH: `ΦN z` is the log of what a lineage starting at a birth time (or the
+origin) `z` pays up to the present if it is never sampled, `ΦT y` the same seen from a sampling time; a branch from `p`
+to a child pays the difference (= the linear master equation integrated along the branch, `1 − ρ` at each boundary
+crossed); a birth pays `log λ`, a tip `log` of its sampling rate -/
+noncomputable def branchLog (ΦN ΦT lrate srate : ℝ → ℝ) (p : ℝ) : TTree ℝ → ℝ
+  | .tip y => ΦN p - ΦT y + Real.log (srate y)
+  | .node x l r => ΦN p - ΦN x + Real.log (lrate x) + branchLog ΦN ΦT lrate srate x l + branchLog ΦN ΦT lrate srate x r
+
+theorem branchLog_eq_lineages (ΦN ΦT lrate srate : ℝ → ℝ) : ∀ (T : TTree ℝ) (p : ℝ),
+    branchLog ΦN ΦT lrate srate p T
+      = ΦN p + (T.internalTimes.map fun x => Real.log (lrate x) + ΦN x).sum
+        + (T.tipTimes.map fun y => Real.log (srate y) - ΦT y).sum
+  | .tip y, p => by simp [branchLog, TTree.internalTimes, TTree.tipTimes]; ring
+  | .node x l r, p => by
+      rw [branchLog, branchLog_eq_lineages ΦN ΦT lrate srate l x, branchLog_eq_lineages ΦN ΦT lrate srate r x]
+      simp only [TTree.internalTimes, TTree.tipTimes, List.map_cons, List.map_append, List.sum_cons, List.sum_append]
+      ring
+
+/-- **master_tree_density_eq_model**: for every binary tree `T` (node times forward from the origin `t 0 = 0`, births in
+`[0, T)`, samplings in `(0, T]`), any number of epochs, admissible rates and exact solutions `pt`, `gt` of the master
+equations: survival term + the branch-by-branch log density along the tree = the modelled log density. -/
+theorem master_tree_density_eq_model (r : Rates ℝ) (t : Nat → ℝ) (m' : Nat) (g : Grid t (m' + 1))
+    (hr : Admissible r (m' + 1)) (t0 : t 0 = 0) (pt gt : Nat → ℝ → ℝ) (hp : MasterP r t (m' + 1) pt)
+    (hg : MasterG r t (m' + 1) pt gt) (surv : Bool) (T : TTree ℝ)
+    (hx : ∀ x ∈ T.internalTimes, 0 ≤ x ∧ x < t (m' + 1)) (hy : ∀ y ∈ T.tipTimes, 0 < y ∧ y ≤ t (m' + 1)) :
+    (if surv then -Real.log (1 - pt 0 (t 1 - t 0)) else 0)
+      + branchLog (phiN r t (m' + 1) fun k z => Real.log (gt k (t (k + 1) - z)))
+          (phiT r t (m' + 1) fun k z => Real.log (gt k (t (k + 1) - z)))
+          (fun x => r.lam (idxX t (m' + 1) x)) (sampRate r t (m' + 1)) (t 0) T
+      = logProb r none t (m' + 1) surv (T.tipTimes.map fun y => t (m' + 1) - y)
+          (T.internalTimes.map fun x => t (m' + 1) - x) := by
+  have hev : Events t (m' + 1) T.internalTimes T.tipTimes := by
+    constructor
+    · intro x hxx; rw [t0]; exact hx x hxx
+    · intro y hyy; rw [t0]; exact hy y hyy
+  have hLq0 : ∀ k, k < m' + 1 → (fun k z => Real.log (gt k (t (k + 1) - z))) k (t (k + 1)) = 0 := by
+    intro k hk; simp [hg.norm k hk]
+  rw [branchLog_eq_lineages, add_assoc (phiN _ _ _ _ _),
+    ← add_assoc (phiN _ _ _ _ _), ← sum_epochTermL_eq_lineages r t m' g _ T.internalTimes T.tipTimes hev hLq0]
+  have hmodel := master_event_density_eq_model r t m' g hr t0 pt gt hp hg surv
+    (T.tipTimes.map fun y => t (m' + 1) - y) (T.internalTimes.map fun x => t (m' + 1) - x)
+    (by
+      intro a ha
+      obtain ⟨x, hxx, rfl⟩ := List.mem_map.mp ha
+      have := hx x hxx
+      constructor <;> linarith)
+    (by
+      intro a ha
+      obtain ⟨y, hyy, rfl⟩ := List.mem_map.mp ha
+      have := hy y hyy
+      constructor <;> linarith)
+  have e1 : ((T.internalTimes.map fun x => t (m' + 1) - x).map fun h => t (m' + 1) - h) = T.internalTimes := by
+    rw [List.map_map]; simp [Function.comp]
+  have e2 : ((T.tipTimes.map fun y => t (m' + 1) - y).map fun h => t (m' + 1) - h) = T.tipTimes := by
+    rw [List.map_map]; simp [Function.comp]
+  rw [e1, e2] at hmodel
+  rw [← hmodel]
+  unfold masterLogDensity
+  congr 1
+
 /-- non-vacuity: the closed forms themselves are exact solutions (`MasterP`, `MasterG` are inhabited) for any admissible
 rates on any increasing grid -/
 theorem closed_forms_are_master_solutions (r : Rates ℝ) (t : Nat → ℝ) (m : Nat) (g : Grid t m) (hr : Admissible r m) :
@@ -197,5 +261,11 @@ example : ∃ (r : Rates ℝ) (t : Nat → ℝ), Grid t 2 ∧ Admissible r 2 ∧
   · intro a b hab _; show (a : ℝ) < (b : ℝ); exact_mod_cast hab
   · intro k hk
     interval_cases k <;> norm_num
+
+/-- non-vacuity for the tree theorem: on that grid (`t_k = k`, two epochs) the tree with a birth at 1/2, a tip exactly on the
+boundary `t_1 = 1` and a tip at the present satisfies the hypotheses on its node times -/
+example : let T : TTree ℝ := .node (1/2) (.tip 1) (.tip 2)
+    (∀ x ∈ T.internalTimes, 0 ≤ x ∧ x < ((2 : ℕ) : ℝ)) ∧ (∀ y ∈ T.tipTimes, 0 < y ∧ y ≤ ((2 : ℕ) : ℝ)) := by
+  simp [TTree.internalTimes, TTree.tipTimes]; norm_num
 
 end TTProps.C09.Master
